@@ -1,5 +1,6 @@
 """Which functions, lemmas and bounded stand-ins decide which property (DESIGN.md sections 0 and 5)."""
 from . import abnf, core, recv, app
+from harness import appsim
 
 GLOBAL_TRUSTED = [
     "pyvc (AST -> verification conditions) and its encoding of Python semantics (DESIGN.md 2.2, 2.14)",
@@ -29,6 +30,8 @@ RFN = "WebSocketApp.run_forever.<locals>."
 T_CB = "assumed contract of user callbacks: may raise any Exception subclass / KeyboardInterrupt / SystemExit and may call app.close()"
 T_SEL = "assumed contract of selectors: select() returns a possibly empty ready list"
 T_THREAD = "assumed contracts of threading.Event/Thread: the ping thread ends once its stop event is set (join within 3 s)"
+BOUNDED_COMPOSITION = ("the bodies of run_forever (after its validation prefix) and of the closure setSock compose the closures proved here; "
+                       "that composition is covered only by a BOUNDED scenario harness (real WebSocketApp against a scripted loopback server), never counted as proved")
 COST.update({PA + RFN + "setSock": 100, PA + "WebSocketApp.run_forever": 100, PA + RFN + "read": 100, D_ + "Dispatcher.read": 80, D_ + "SSLDispatcher.read": 80,
              PA + RFN + "handleDisconnect": 60})
 COST.update({K + "WebSocket.close": 100, K + "WebSocket.recv_data_frame": 100, K + "WebSocket.recv": 40, A + "frame_buffer.recv_frame": 10, A + "ABNF.format": 5})
@@ -97,25 +100,34 @@ PROPS = {
                      "explicit user calls of send_close() are not counted as 'own initiative' (the statement's parenthesis names close() and the reply)"],
         not_decided=["close() returns within its timeout (a wall-clock bound on a loop whose progress depends on the peer)"]),
     "C13": dict(
-        functions=[PA + "WebSocketApp._callback", PA + RFN + "read", PA + RFN + "setSock", D_ + "Dispatcher.read", D_ + "SSLDispatcher.read",
+        functions=[PA + "WebSocketApp._callback", PA + RFN + "read", D_ + "Dispatcher.read", D_ + "SSLDispatcher.read",
                    A + "frame_buffer.recv_frame", K + "WebSocket.recv_data_frame"],
-        lemmas=[], trusted_base=[T_TRANSPORT, T_CB, T_SEL], assumptions=[], not_decided=["the time at which a callback fires (only its mechanism, no over-read by the parser, is proved)"]),
+        lemmas=[], bounded=[appsim.bounded("C13")], trusted_base=[T_TRANSPORT, T_CB, T_SEL],
+        assumptions=[BOUNDED_COMPOSITION + " (here: on_open / on_reconnect fire once per connection and before the dispatcher starts reading)"],
+        not_decided=["the time at which a callback fires (only its mechanism, no over-read by the parser, is proved)"]),
     "C14": dict(
-        functions=[PA + RFN + "teardown", PA + RFN + "read", PA + RFN + "handleDisconnect", PA + RFN + "setSock", PA + "WebSocketApp.run_forever",
+        functions=[PA + RFN + "teardown", PA + RFN + "read", PA + RFN + "handleDisconnect", PA + "WebSocketApp.run_forever",
                    PA + "WebSocketApp._get_close_args", PA + "WebSocketApp._stop_ping_thread", PA + "WebSocketApp._callback", K + "WebSocket.close"],
-        lemmas=[], trusted_base=[T_TRANSPORT, T_CB, T_SEL, T_THREAD], assumptions=[],
+        lemmas=[], bounded=[appsim.bounded("C14")], trusted_base=[T_TRANSPORT, T_CB, T_SEL, T_THREAD],
+        assumptions=[BOUNDED_COMPOSITION + " (here: the try/except/finally of run_forever reaches teardown on every exit path; the return value)"],
         not_decided=["that run_forever returns (termination depends on the peer / select)", "close() issued from another thread at every line",
                      "the ping thread is gone beyond 'stop event set and joined with its 3 s bound'"]),
     "C15": dict(
-        functions=[PA + RFN + "setSock", PA + RFN + "handleDisconnect", PA + "WebSocketApp.run_forever", D_ + "DispatcherBase.reconnect",
-                   PA + "WebSocketApp._start_ping_thread", PA + "WebSocketApp._stop_ping_thread", K + "WebSocket.shutdown", PA + RFN + "read",
-                   PA + RFN + "teardown"],
-        lemmas=[], trusted_base=[T_TRANSPORT, T_CB, T_SEL, T_THREAD, "external dispatcher (rel) methods read/timeout/signal/abort are assumed contracts"],
-        assumptions=[], not_decided=["that an attempt eventually succeeds; the real length of the pause (time.sleep is assumed to sleep)"]),
+        functions=[PA + RFN + "handleDisconnect", D_ + "DispatcherBase.reconnect", PA + "WebSocketApp._start_ping_thread",
+                   PA + "WebSocketApp._stop_ping_thread", K + "WebSocket.shutdown", PA + RFN + "read", PA + RFN + "teardown"],
+        lemmas=[], bounded=[appsim.bounded("C15")],
+        trusted_base=[T_TRANSPORT, T_CB, T_SEL, T_THREAD, "external dispatcher (rel) methods read/timeout/signal/abort are assumed contracts",
+                      "contract of setSock (one attempt; previous socket shut down first) is used by DispatcherBase.reconnect as an assumed contract"],
+        assumptions=[BOUNDED_COMPOSITION + " (here: the reconnect loop of run_forever and the body of setSock)"],
+        not_decided=["that an attempt eventually succeeds; the real length of the pause (time.sleep is assumed to sleep)"]),
     "C16": dict(
-        functions=[PA + "WebSocketApp.run_forever", PA + RFN + "check", PA + "WebSocketApp._start_ping_thread", PA + "WebSocketApp._stop_ping_thread",
-                   D_ + "Dispatcher.read", D_ + "SSLDispatcher.read", PA + RFN + "read"],
-        lemmas=[], trusted_base=[T_THREAD, T_SEL, "time.time() is a non-decreasing clock"], assumptions=[],
+        functions=[PA + "WebSocketApp.run_forever", PA + RFN + "check", PA + "WebSocketApp._send_ping", PA + "WebSocketApp._start_ping_thread",
+                   PA + "WebSocketApp._stop_ping_thread", D_ + "Dispatcher.read", D_ + "SSLDispatcher.read", PA + RFN + "read", K + "WebSocket.ping"],
+        lemmas=["lemma:timing"], bounded=[appsim.bounded("C16")],
+        trusted_base=[T_THREAD, T_SEL, "time.time() is a non-decreasing clock",
+                      "scheduling assumptions of the timing lemmas: S1 select(T) returns within T, S2 processing a readable frame takes no time, "
+                      "S3 a frame that started to arrive arrives completely"],
+        assumptions=["timing lemmas are proved over the exact predicate of check() (its contract), not over thread interleavings"],
         not_decided=["interleavings of the ping thread with the reading loop; real scheduling latency"]),
     "C12": dict(
         functions=[K + "WebSocket.send_frame", K + "WebSocket._send", SK + "send", K + "WebSocket.recv", A + "frame_buffer.recv_frame",
